@@ -149,8 +149,11 @@ class FuzzyFinder(object):
 
     @staticmethod
     def _check_duplicate_attrs(attrs_list, attr):
+        # The same attribute of the same odML object cannot have two values;
+        # equally named attributes of different objects (e.g. the name of a
+        # Section and the name of a Property) can be combined.
         for i in attrs_list:
-            if attr[1][0] == i[1][0]:
+            if attr[0] == i[0] and attr[1][0] == i[1][0]:
                 return False
         return True
 
